@@ -172,6 +172,14 @@ def check_cases(ctx, cases):
                         p = "exc:" + type(e).__name__
                     rows.append([b, fb, p, c])
                     ctx.evaluations += 1
+                    # the legacy dictionary form goes through the same numeric form: same bytes (sampled)
+                    if c is True and (o % 97 == 0 or -70 <= o <= 70 or abs(o) > 32700):
+                        try:
+                            td = TimestampWithTimezone.from_dict({"timestamp": {"seconds": ts0.seconds, "microseconds": ts0.microseconds}, "offset": o, "negative_utc": f})
+                            if td.offset_bytes != b or td != t:
+                                ctx.fail({"kind": "offset1", "o": o, "f": f}, "the legacy dictionary form (offset, negative_utc) does not decode to the bytes of the numeric form", "legacy-dict-offset-differs", {"got": td.offset_bytes.decode("latin1"), "want": b.decode("latin1")})
+                        except Exception as e:
+                            ctx.fail({"kind": "offset1", "o": o, "f": f}, f"the legacy dictionary form raises {type(e).__name__}", "legacy-dict-offset-raises")
                     in16 = -32768 <= o <= 32767
                     # ---- oracle (property stated directly)
                     if in16 and (not f or o <= 0):
